@@ -125,6 +125,16 @@ func (a ruleNodesAd) apply(op omOp) {
 			}
 			return v, nil
 		})
+	case "mapfail":
+		_ = a.m.Map(func(k string, v schema.RuleASTNode) (schema.RuleASTNode, error) {
+			if k == op.K {
+				return schema.RuleASTNode{}, errMapCallback
+			}
+			if inSet(op.Keys, k) {
+				return schema.RuleASTNode{Value: op.V}, nil
+			}
+			return v, nil
+		})
 	}
 }
 func (a ruleNodesAd) observe(keys []string) (omObs, []string) {
@@ -192,6 +202,16 @@ func (a astNodesAd) apply(op omOp) {
 		a.m.Filter(func(k string, _ schema.ASTNode) bool { return inSet(op.Keys, k) })
 	case "map":
 		_ = a.m.Map(func(k string, v schema.ASTNode) (schema.ASTNode, error) {
+			if inSet(op.Keys, k) {
+				return schema.ASTNode{Value: op.V}, nil
+			}
+			return v, nil
+		})
+	case "mapfail":
+		_ = a.m.Map(func(k string, v schema.ASTNode) (schema.ASTNode, error) {
+			if k == op.K {
+				return schema.ASTNode{}, errMapCallback
+			}
 			if inSet(op.Keys, k) {
 				return schema.ASTNode{Value: op.V}, nil
 			}
@@ -292,6 +312,16 @@ func (a constraintsAd) apply(op omOp) {
 		a.m.Filter(func(k constraint.Type, _ constraint.Constraint) bool { return inSet(op.Keys, omCKeyName(k)) })
 	case "map":
 		_ = a.m.Map(func(k constraint.Type, v constraint.Constraint) (constraint.Constraint, error) {
+			if inSet(op.Keys, omCKeyName(k)) {
+				return omCVals[op.V], nil
+			}
+			return v, nil
+		})
+	case "mapfail":
+		_ = a.m.Map(func(k constraint.Type, v constraint.Constraint) (constraint.Constraint, error) {
+			if omCKeyName(k) == op.K {
+				return nil, errMapCallback
+			}
 			if inSet(op.Keys, omCKeyName(k)) {
 				return omCVals[op.V], nil
 			}
@@ -489,6 +519,8 @@ func omStateOf(st map[string]any) omState {
 	return s
 }
 
+var errMapCallback = errors.New("the callback refuses this entry")
+
 func omOpOf(e tlc.Edge) omOp {
 	switch e.Action {
 	case "Set":
@@ -511,6 +543,13 @@ func omOpOf(e tlc.Edge) omOp {
 			ks = []string{}
 		}
 		return omOp{Op: "map", Keys: ks, V: tlc.Str(e.Args[1])}
+	case "MapFail":
+		ks := tlc.Strs(e.Args[0])
+		sort.Strings(ks)
+		if ks == nil {
+			ks = []string{}
+		}
+		return omOp{Op: "mapfail", Keys: ks, V: tlc.Str(e.Args[1]), K: tlc.Str(e.Args[2])}
 	}
 	panic("unknown action " + e.Action)
 }
